@@ -3,6 +3,7 @@
 #include <ctype.h>
 #include <errno.h>
 #include <stdlib.h>
+#include <string.h>
 #include "control.h"
 #include "netio.h"
 #include <qsmtpd/qsmtpd.h>
@@ -26,6 +27,7 @@ cb_nomail(const struct userconf *ds, const char **logmsg, enum config_domain *t)
 	int fd;
 	int i;
 	int codebeg;		/* message begins with reject code */
+	char codebuf[11];	/* the reject code and enhanced status code of the message */
 	const char *netmsg[] = { "550 5.7.1 ", NULL, NULL };
 
 	fd = getfile(ds, "nomail", t, 0);
@@ -65,9 +67,18 @@ cb_nomail(const struct userconf *ds, const char **logmsg, enum config_domain *t)
 		}
 	}
 
-	netmsg[1] = rejmsg;
-	/* if codebeg do not add the generic error code */
-	errno = -net_writen(netmsg + !!codebeg);
+	if (codebeg) {
+		/* do not add the generic error code, use the one from the message
+		 * instead. It is passed on its own so the text behind it is folded
+		 * like any other if it does not fit into one reply line. */
+		memcpy(codebuf, rejmsg, sizeof(codebuf) - 1);
+		codebuf[sizeof(codebuf) - 1] = '\0';
+		netmsg[0] = codebuf;
+		netmsg[1] = rejmsg + sizeof(codebuf) - 1;
+	} else {
+		netmsg[1] = rejmsg;
+	}
+	errno = -net_writen(netmsg);
 
 	free(rejmsg);
 
